@@ -667,6 +667,102 @@ pub fn run_c06(rep: &mut Report) {
     }
     rep.count("ordered_frame_pairs", pair_frames / 2);
 
+    // ---------------------------------------------------------------- (b2) longer memories: every frame repeated many times on one
+    //      decoder, and triples (two representative frames, then every frame)
+    {
+        let reps_n = if rep.thorough() { 300 } else { 40 };
+        let fd = fresh_dbg.clone();
+        let shards = par_map(threads, move |t| {
+            let mut out = Out::default();
+            let mut w = t as u16;
+            while w < 2048 {
+                let r = guarded(|| {
+                    let mut local = Out::default();
+                    let mut d = Ps2Decoder::new();
+                    for k in 0..reps_n {
+                        let prev = if k == 0 { "fresh".to_string() } else { format!("after-{}-copies-of-the-same-frame", k.min(3)) };
+                        let po = || vec![format!("bits:{} (x{})", word_bits(w), k)];
+                        if !feed_and_check(&mut d, w, &prev, &po, &fd, false, &mut local) {
+                            break;
+                        }
+                    }
+                    local
+                });
+                match r {
+                    Ok(l) => merge(&mut out, l),
+                    Err(p) => {
+                        out.panics += 1;
+                        out.violations.push((format!("C06|panic|repeated-frame|{}", panic_sig(&p)), format!("repeating frame {} panicked: {}", word_bits(w), p), J::Null));
+                    }
+                }
+                w += threads as u16;
+            }
+            out
+        });
+        let mut n = 0;
+        for s in shards {
+            n += s.frames;
+            merge(&mut out, s);
+        }
+        rep.count("frames_in_repeated_frame_runs", n);
+
+        // representative first and second frames: a few of each class
+        let mut reps: Vec<u16> = vec![0x000, 0x7FF, 0x001, 0x400, 0x3FE, 0x5FE];
+        let n_rep = if rep.thorough() { 58 } else { 10 };
+        let mut rng = Rng::fork(rep.seed, 0xC06_7777);
+        for i in 0..n_rep {
+            let b = rng.byte();
+            reps.push(match i % 4 {
+                0 => encode_frame(b),
+                1 => encode_frame(b) ^ 0x200,
+                2 => encode_frame(b) ^ 0x400,
+                _ => encode_frame(b) | 1,
+            });
+        }
+        let fd = fresh_dbg.clone();
+        let reps2 = reps.clone();
+        let shards = par_map(threads, move |t| {
+            let mut out = Out::default();
+            for (i, w1) in reps2.iter().enumerate() {
+                if i % threads != t {
+                    continue;
+                }
+                for w2 in reps2.iter() {
+                    let r = guarded(|| {
+                        let mut local = Out::default();
+                        for w3 in 0..2048u16 {
+                            let mut d = Ps2Decoder::new();
+                            let none = || Vec::new();
+                            feed_and_check(&mut d, *w1, "fresh", &none, &fd, false, &mut local);
+                            feed_and_check(&mut d, *w2, "after-one-frame", &none, &fd, false, &mut local);
+                            let prev = format!("after-{}-then-{}-frame", frame_class(*w1), frame_class(*w2));
+                            let po = || vec![format!("bits:{}", word_bits(*w1)), format!("bits:{}", word_bits(*w2))];
+                            feed_and_check(&mut d, w3, &prev, &po, &fd, false, &mut local);
+                            if local.violations.len() > 500 {
+                                break;
+                            }
+                        }
+                        local
+                    });
+                    match r {
+                        Ok(l) => merge(&mut out, l),
+                        Err(p) => {
+                            out.panics += 1;
+                            out.violations.push((format!("C06|panic|frame-triples|{}", panic_sig(&p)), format!("frame triple panicked: {}", p), J::Null));
+                        }
+                    }
+                }
+            }
+            out
+        });
+        let mut n = 0;
+        for s in shards {
+            n += s.frames;
+            merge(&mut out, s);
+        }
+        rep.count("frame_triples", n / 3);
+    }
+
     // ---------------------------------------------------------------- (c) clear() from every partial state, then every frame
     let prefixes: Vec<Vec<bool>> = states.values().cloned().collect();
     let fd = fresh_dbg.clone();
